@@ -395,6 +395,30 @@ func checkC17(c *runCtx) {
 				if c1.Foundation() != c2.Foundation() {
 					c.violation("", fmt.Sprintf("equal (type,address,network) but different foundations: %v", k), map[string]any{"part": "foundation", "key": fmt.Sprint(k)})
 				}
+				// everything else a candidate carries stays out of the foundation: TCP type, relay protocol, related address
+				var others []Candidate
+				if ty == CandidateTypeHost && nt.IsTCP() {
+					for _, tt := range []TCPType{TCPTypeActive, TCPTypePassive, TCPTypeSimultaneousOpen} {
+						x, _ := NewCandidateHost(&CandidateHostConfig{Network: nt.NetworkShort(), Address: ad, Port: 3000, Component: 1, TCPType: tt})
+						others = append(others, x)
+					}
+				}
+				if ty == CandidateTypeRelay {
+					for _, rp := range []string{"udp", "tcp", "tls", "dtls"} {
+						x, _ := NewCandidateRelay(&CandidateRelayConfig{Network: nt.NetworkShort(), Address: ad, Port: 3000, Component: 1, RelAddr: "10.8.8.8", RelPort: 6, RelayProtocol: rp})
+						others = append(others, x)
+					}
+				}
+				if ty == CandidateTypeServerReflexive {
+					x, _ := NewCandidateServerReflexive(&CandidateServerReflexiveConfig{Network: nt.NetworkShort(), Address: ad, Port: 3000, Component: 1, RelAddr: "10.8.8.8", RelPort: 6})
+					others = append(others, x)
+				}
+				for _, o := range others {
+					fEvals++
+					if o != nil && o.Foundation() != c1.Foundation() {
+						c.violation("", fmt.Sprintf("equal (type,address,network) but different foundations: %v (TCP type %s, related address %v)", k, o.TCPType(), o.RelatedAddress()), map[string]any{"part": "foundation", "key": fmt.Sprint(k)})
+					}
+				}
 				want := fmt.Sprintf("%d", crc32.ChecksumIEEE([]byte(ty.String()+ad+nt.String())))
 				if c1.Foundation() != want {
 					c.violation("", fmt.Sprintf("foundation is not CRC-32 of type+address+network for %v", k), map[string]any{"part": "foundation", "key": fmt.Sprint(k)})
